@@ -533,6 +533,69 @@ example : extractKeyMultiGen false ⟨fun _ => none, fun _ => some (.val .list (
 example : (extractKeySingleGen false ⟨fun _ => none, fun _ => some (.val .list (.int 0))⟩ []).bind absKey =
     some (some (.int 0)) := gen_extract_single_is_model false _ [] .list .int (.plain (.int 0)) rfl
 
+/-- **`make_sortfunctions` of the source, one option, is `parseOption`**: the translation (the split at the slashes, the
+defaults appended according to the number of parts, the chain choosing the comparison function, the direction word
+lowered and turned into the multiplier, the two SyntaxErrors) succeeds exactly when the model's parser does, with the
+entry `(key, function, +1 / -1)` the parsed option stands for - for every text and every `lower` -/
+theorem gen_make_sortfield_is_model (lower : Text → Text) (field : Text) :
+    (makeSortFieldGen lower field).toOption = (parseOption lower field).map entryOf := field_parts lower field
+
+/-- **the whole sort attribute**: `sortfields = sort.split(',')`, then the loop of `make_sortfunctions` appending one
+entry per option; the first SyntaxError ends it -/
+theorem gen_make_sortfunctions_is_model (lower : Text → Text) (spec : Text) :
+    (makeSortFunctionsGen lower (splitOn ',' spec)).toOption = (parseSpec lower spec).map (·.map entryOf) := by
+  have h := fields_loop lower (splitOn ',' spec) []
+  simpa [makeSortFunctionsGen, parseSpec] using h
+
+/-- the entry built for an option is the one `SortBy.__call__` was proved about (`sfOf`): same key, same multiplier, and
+the comparison function the reference names in the model -/
+theorem gen_entry_is_sfOf (lower : Text → Text) (s : FieldSpec) (f : Field) (h : s.field? = some f) :
+    (entryOf s).1 = (sfOf lower (s.key, f)).name ∧ (entryOf s).2.2 = (sfOf lower (s.key, f)).multiplier ∧
+      s.func.kind? = some f.kind := by
+  unfold FieldSpec.field? at h
+  cases hk : s.func.kind? with
+  | none => simp [hk] at h
+  | some k => simp [hk] at h; subst h; simp [entryOf, sfOf]
+
+/-! what the parser of the model does (for a `lower` that leaves "asc" alone, as every real one does) -/
+
+theorem parse_defaults (lower : Text → Text) (h : lower "asc".toList = "asc".toList) (k f : Text) :
+    parseParts lower [k] = some ⟨k, .cmp, false⟩ ∧ parseParts lower [k, f] = some ⟨k, funcOfName f, false⟩ := by
+  have hc : funcOfName "cmp".toList = .cmp := by decide
+  constructor
+  · show mkSpec lower k "cmp".toList "asc".toList = _
+    simp only [mkSpec, descOfWord, h, ↓reduceIte, Option.map_some, hc]
+  · show mkSpec lower k f "asc".toList = _
+    simp only [mkSpec, descOfWord, h, ↓reduceIte, Option.map_some]
+
+theorem parse_direction (lower : Text → Text) (k f d : Text) :
+    (lower d = "asc".toList → parseParts lower [k, f, d] = some ⟨k, funcOfName f, false⟩) ∧
+    (lower d = "desc".toList → parseParts lower [k, f, d] = some ⟨k, funcOfName f, true⟩) ∧
+    (lower d ≠ "asc".toList → lower d ≠ "desc".toList → parseParts lower [k, f, d] = none) := by
+  have hne : ¬ ("desc".toList = "asc".toList) := by decide
+  refine ⟨fun h => ?_, fun h => ?_, fun h1 h2 => ?_⟩
+  · show mkSpec lower k f d = _
+    simp only [mkSpec, descOfWord, h, ↓reduceIte, Option.map_some]
+  · show mkSpec lower k f d = _
+    simp only [mkSpec, descOfWord, h, if_neg hne, ↓reduceIte, Option.map_some]
+  · show mkSpec lower k f d = _
+    simp only [mkSpec, descOfWord, if_neg h1, if_neg h2, Option.map_none]
+
+theorem parse_too_many_slashes (lower : Text → Text) (a b c d : Text) (r : List Text) :
+    parseParts lower (a :: b :: c :: d :: r) = none := rfl
+
+theorem parse_function_names :
+    funcOfName "cmp".toList = .cmp ∧ funcOfName "nocase".toList = .nocase ∧ funcOfName "locale".toList = .strcoll ∧
+    funcOfName "strcoll".toList = .strcoll ∧ funcOfName "locale_nocase".toList = .strcollNocase ∧
+    funcOfName "strcoll_nocase".toList = .strcollNocase ∧ funcOfName "rcmp".toList = .named "rcmp".toList := by decide
+
+example : parseSpec id "a/nocase/desc,b".toList =
+    some [⟨"a".toList, .nocase, true⟩, ⟨"b".toList, .cmp, false⟩] := by decide
+example : (makeSortFunctionsGen id (splitOn ',' "a/nocase/desc,b".toList)).toOption =
+    some [("a".toList, .nocase, -1), ("b".toList, .cmp, 1)] := by
+  rw [gen_make_sortfunctions_is_model]; decide
+example : parseSpec id "a/b/c/d".toList = none ∧ parseSpec id "a/cmp/up".toList = none := by decide
+
 end Gen
 
 end DTML.Props.C13
